@@ -15,6 +15,16 @@ E1_TECH = ('bounded symbolic execution of the real yatiml/PyYAML code with '
            'bounds), counterexamples replayed on the unstubbed public API')
 
 CHECKS = {
+    'C03': dict(
+        text='Bounded model checking of the real Recognizer on five class '
+             'hierarchies (abstract middle, unregistered middle, ambiguous '
+             'fan, diamond, custom discriminating recognisers) and '
+             'Union/Optional types over them with FREE symbolic top-level and '
+             'value tags, against the most-derived-unique-match rule; and at '
+             'load level every permutation of Union members and of the '
+             'registration order must give the canonical outcome and the '
+             'reference class.',
+        design='4/C03'),
     'C02': dict(
         text='Differential bounded model checking: the real load pipeline '
              'against a naive reference interpreter of the documented rules '
